@@ -164,6 +164,9 @@ Deep ==
     \* different explicit high tags of one class (self-describing)
     [k |-> "seq", tags |-> <<>>, comps |-> << Comp("p", Sc("int", <<CtxE(40)>>), "req"), Comp("q", Sc("octs", <<CtxE(41)>>), "req"),
                                               Comp("r", Sc("bool", <<CtxE(1000)>>), "opt") >>],
+    \* mandatory members with empty constructed contents next to OPTIONAL ones
+    [k |-> "seq", tags |-> <<>>, comps |-> << Comp("o", Sc("int", <<>>), "opt"), Comp("m", InnerOf, "req"),
+                                              Comp("n", [k |-> "seq", tags |-> <<Ctx(1)>>, comps |-> << Comp("x", InnerSetOf, "req") >>], "opt") >>],
     \* SET whose canonical order depends on the alternative chosen in an untagged CHOICE member
     [k |-> "set", tags |-> <<>>, comps |-> << Comp("p", ChoiceOf(Sc("int", <<>>), Sc("utf8", <<>>), <<>>), "req"),
                                               Comp("q", Sc("octs", <<>>), "req") >>],
